@@ -48,7 +48,7 @@ CLAIMED = {
    text="2-3 processes race key creation from cold / SK-only / expired / revoked (noticed and unnoticed) states; every process blocks before each metastore call until granted, so schedules are sequences of choices: all interleavings of 2 processes x 1 encrypt are enumerated per scenario (x2 encrypts in thorough), 3 processes are sampled. Every record must decrypt in the reference, a fresh process and every other racer; no row may change; unsaved keys must be discarded.",
    note="granularity = metastore calls of processes sharing only the store; scenarios are sampled, their 2-process schedule spaces are complete", ref="3/C14"),
  "C15": dict(level="exploration", engine="cache-model", technique="model-based testing: exhaustive short operation sequences + long rapid sequences + rapid.MakeFuzz under go fuzz, against a reference bounded map with policy models",
-   text="All sequences up to length 4 (6 in thorough) over Set/Get/Delete x 3 keys, clock advance and Close for every policy, capacities 1-3 (and TinyLFU at 99/100/101/200) with and without expiry, plus long random sequences at capacities on both sides of every internal threshold, synchronous and asynchronous; presence is owned by the callbacks, victims checked for LRU/LFU/SLRU.",
+   text="All sequences up to length 5 (6 in thorough) over Set/Get/Delete x 3 keys, clock advance and Close for every policy, capacities 1-3 (and TinyLFU at 99/100/101/200) with and without expiry, plus long random sequences at capacities on both sides of every internal threshold, synchronous and asynchronous; presence is owned by the callbacks, victims checked for LRU/LFU/SLRU.",
    note="Delete callbacks 0 or 1, sliding expiry tolerated, TinyLFU victims and capacity 0 not asserted", ref="3/C15"),
  "C16": dict(level="exploration", engine="E3-delay", technique="stateful PBT (sequential) + preemption-bounded schedule sampling (concurrent) with a tracking SecretFactory; oracle: held sessions work, same-session sharing, exactly-once teardown",
    text="Session cache of size 1-3 with every policy and short expiry: generated histories and concurrent workloads hold sessions across evictions and expiry, use them afterwards, and finally close everything; delay plans (random and every reachable site of session_cache.go / cache.go as single preemption) vary the schedule.",
